@@ -73,7 +73,7 @@ func c05Op(t *sim.Tape, cfg *concCfg, uniq string) fsx.Op {
 		o.P, o.Q = []string{"f", "/b", "d", "../b/g", "/a/l", "x", "/a"}[t.Int(7)], p()
 	case "OpenFile":
 		o.P = p()
-		o.Flag = openFlagSets[t.Int(len(openFlagSets))]
+		o.Flag = genFlags(t)
 		o.Perm = 0o644
 		o.H = t.Int(2)
 	case "WriteFile":
